@@ -38,8 +38,16 @@ claim("C29", T + "table agreement (AppDB keys = Snapshot list = Restore cases), 
       "Decides that the record set used by the AppDB equals what Snapshot exports and Restore accepts, that every store write waits for a running snapshot, that Snapshot reads before releasing and releases on every return, that Commit raises the WaitGroup before spawning the snapshot, that loaders never cache empty reads, and the C09 dirty-flag rule. Not decided: IAVL export/import, chunking, later behaviour.",
       TRUST, "DESIGN.md §4 C29")
 
+claim("C16", T + "provenance of release heights at every fund-freezing site, who-may-release rule on BeginBlock, interprocedural gate facts (callee-returned-nil summaries) for the move target and the LockStake gate",
+      "Decides that every site freezing funds computes block+GetUnbondPeriod / currentBlock+GetMovePeriod / gated DueBlock, that only BeginBlock releases frozen funds, only for its own height, crediting balances only without a move target and delegating only with one, that MoveStake is accepted only towards an existing candidate (found and repaired) and UnbondV3 only when not stake-locked. Not decided: numeric period values, what happens when the move target disappears before maturity (C07 finding).",
+      TRUST, "DESIGN.md §4 C16")
+
+claim("C25", T + "must-hold lockset dataflow per function with caller-held summaries; guarded-by table over map fields shared between API-reachable and consensus-reachable code; re-acquisition and release-on-every-return rules",
+      "Decides that every map operation on a state/events map field shared between API readers and block execution holds the field's guard (found and repaired: swapPools, events store id tables), that no API-reachable path re-acquires a mutex block execution write-locks (found and repaired: GetLockStakeUntilBlock), that every acquisition is released on every normal return, that API code calls no mutator, that bulk loaders are called by the API only on private historic states, and that the node is wired through the serialising local ABCI client. Not decided: races on non-map fields, lock-order cycles, the order-book lists.",
+      TRUST + "Guard table confirmed by reading; Tendermint's local client serialises ABCI calls.", "DESIGN.md §4 C25")
+
 PENDING = "check not built yet in this round; see DESIGN.md §4 for the planned static rule"
-for p in ["C01","C02","C05","C06","C07","C13","C14","C15","C16","C17","C18","C19","C21","C22","C23","C24","C25","C27","C28"]:
+for p in ["C01","C02","C05","C06","C07","C13","C14","C15","C17","C18","C19","C21","C22","C23","C24","C27","C28"]:
     if p not in CLAIMS:
         NOT_APPLICABLE[p] = PENDING
 NOT_APPLICABLE["C12"] = "Bancor formula accuracy is a numeric error bound over big.Float Exp/Log for all supplies/reserves/ratios; no clause of it is visible in the shape of the code, and bounding floating-point error is outside static analysis as available here (DESIGN.md §5)."
